@@ -72,6 +72,12 @@ func wireRun(qb, tb int) runSpec {
 	return runSpec{engine: "wire", race: false, netns: true, serverBin: true, parallel: 6, qBatches: qb, qCases: 1, tBatches: tb, tCases: 2, stall: 6 * time.Minute}
 }
 
+// raceSlice: a small slice of the concurrent dual-stack workload (-race) for properties whose breaks may
+// need two datagrams in flight (the full-size run belongs to C16)
+func raceSlice() runSpec {
+	return runSpec{engine: "raceserver", race: true, netns: true, parallel: 8, qBatches: 8, qCases: 1, tBatches: 16, tCases: 3, stall: 6 * time.Minute}
+}
+
 var allocConcRun = runSpec{engine: "allocconc", race: true, loglevel: "fatal", parallel: 4, qBatches: 8, qCases: 50, tBatches: 32, tCases: 200}
 
 var specs = map[string]*propSpec{
@@ -89,7 +95,7 @@ var specs = map[string]*propSpec{
 		level: "exploration",
 		rule: "each case draws a DHCPv4 and/or DHCPv6 chain over all built-in plugins (any subset, any order, arguments from each plugin's accepted grammar; half of the cases dual-stack in one process), a listener bound to ve0/vf0 or unbound, and a history of 500-700 datagrams mixing stateful client scripts (6 DHCPv4 clients incl. hlen 0, 5 and 16; 4 DHCPv6 clients with IA_PD hints of length 0/64/72/128/200, IA_NA, relayed with client-link-layer option), retransmissions, grammar-generated well-formed and hostile datagrams, mutations (bit/byte flips, truncation, length +-1, duplication, splice, trailers), the empty datagram and 65507-byte datagrams; then one canary request per protocol. It runs in a fresh server process inside the private network namespace (link-level replies are real frames). Oracle: process alive, every datagram's handling returned (a watchdog expiry is a violation only if the goroutine dump shows a handler parked on a lock), canary handled, at most one reply (UDP captures + sniffed frames) per datagram. Non-trivial = history in which the chain produced at least one reply; distinct by (seed, chains)",
 		assumptions: assume("'never blocks forever' is observed as 'returned within a 150 s watchdog for the whole history, or no lock-parked handler in the dump'", "an unbound listener always gets a non-zero receive ifindex, as the kernel delivers once IP_PKTINFO is on"),
-		runs:        []runSpec{{engine: "hostile", netns: true, qBatches: 16, qCases: 3, tBatches: 64, tCases: 10, stall: 6 * time.Minute}, wireRun(0, 6)},
+		runs:        []runSpec{{engine: "hostile", netns: true, qBatches: 16, qCases: 3, tBatches: 64, tCases: 10, stall: 6 * time.Minute}, wireRun(0, 6), raceSlice()},
 		guards:      []guard{{"hostile.replies", 2000, "replies produced"}, {"hostile.canaries_returned", 40, "canaries"}, {"hostile.plugin.prefix", 5, "prefix in chains"}, {"hostile.plugin.range", 5, "range in chains"}, {"hostile.plugin.file", 5, "file in chains"}, {"hostile.chains_dual_stack", 10, "dual-stack chains"}},
 	},
 	"C02": {
@@ -132,21 +138,24 @@ var specs = map[string]*propSpec{
 		level: "exploration",
 		rule: "per case one of 7 plugin chains (empty, option plugins, range, file, a NAK-producing plugin, yiaddr-assigning + mtu/staticroute/autoconfigure, ipv6only+sleep+nbp) in a fresh server process inside the private network namespace (listener bound or unbound, both arrival links): (1) the full matrix of 256 opcodes x 23 message-type shapes (absent, 0..18, 255, two-byte, empty) with random relay/broadcast/ciaddr fields, option 61/82/116 presence; (2) 1500 (quick) / 6000 (thorough) generated datagrams (all header fields, hlen 0..16 and beyond, option table with wrong lengths and lying length bytes, pads) of which a third are mutated (bit/byte flips, truncation at structural boundaries, length +-1, duplication, splice, large trailers). Every UDP write (capture hook) and every sniffed link-level frame counts as a reply. Oracle: answered only if the codec accepts it, op=BOOTREQUEST and type DISCOVER/REQUEST; reply fields/echo/type per the statement, at most one reply. Distinct by (chain, opcode class, type bytes, answered?) plus every distinct answered datagram",
 		assumptions: assume("that a non-nil final response is actually sent is C13's statement", "hlen > 16 is clipped by the codec and only checked for no-crash"),
-		runs:        []runSpec{{engine: "match4", netns: true, parallel: 14, qBatches: 7, qCases: 1, tBatches: 42, tCases: 1, stall: 5 * time.Minute}, wireRun(0, 6)},
+		runs:        []runSpec{{engine: "match4", netns: true, parallel: 14, qBatches: 7, qCases: 1, tBatches: 42, tCases: 1, stall: 5 * time.Minute}, wireRun(0, 6), raceSlice()},
 		guards:      []guard{{"match4.replies_to_type_1", 200, "replies to DISCOVER"}, {"match4.replies_to_type_3", 200, "replies to REQUEST"}, {"match4.dropped", 10000, "dropped datagrams"}, {"match4.replies_l2", 20, "link-level replies"}},
 	},
 	"C12": {
 		level: "exploration",
 		rule: "per case one of 5 chains (empty; server_id+dns+searchdomains; prefix+dns; file+nbp; sleep+synthetic) in a fresh server process inside the private network namespace, listener bound to ve0 or unbound: (1) matrix of message types 0..255 x client-id present/absent x rapid-commit present/absent, each sent plain and wrapped in 0-4 Relay-Forward layers with random link/peer addresses and Interface-ID/Remote-ID/client-link-layer options, from random global or link-local sources and ports, arriving on ve0 or vf0; (2) 1200 (quick) / 5000 (thorough) generated datagrams (every option kind incl. nested IA options, IAPrefix lengths 0 and > 128, relay depth to 32, Relay-Reply in the wrong place, relay without relay-message) of which a third are mutated. Oracle: answered only if the codec finds an inner message of a supported type; reply type table, xid, client-id, per-layer relay mirror, innermost message equal to the stateless chain's answer to the un-relayed message, destination = source, interface pin iff link-local. Distinct by (chain, type, relay depth, source class, answered?) plus every distinct answered datagram",
 		assumptions: assume("requests without a client identifier must not get one invented; relay chains containing Relay-Reply layers are no-crash only"),
-		runs:        []runSpec{{engine: "match6", netns: true, parallel: 10, qBatches: 10, qCases: 1, tBatches: 40, tCases: 1, stall: 5 * time.Minute}, wireRun(0, 6)},
+		runs:        []runSpec{{engine: "match6", netns: true, parallel: 10, qBatches: 10, qCases: 1, tBatches: 40, tCases: 1, stall: 5 * time.Minute}, wireRun(0, 6), raceSlice()},
 		guards:      []guard{{"match6.replies", 2000, "replies"}, {"match6.replies_relayed", 500, "relayed replies"}, {"match6.replies_link_local", 500, "link-local replies"}, {"match6.dropped", 5000, "drops"}},
 	},
 	"C13": {
 		level: "exploration",
 		rule: "synthetic plugins registered with plugins.RegisterPlugin whose handlers behave as pass / modify / replace response / stop with response / stop with nil and log the identity and marker of the request/response objects they receive and return; every chain in behaviours^len for len 0..4 (781 chains; len <= 5 in the thorough tier) x both protocols, then random mixes of dual / v4-only / v6-only / failing-setup / nil-handler / unknown plugins; a quarter to a third of the configurations go through YAML and config.Load, the rest through a config value; each in a fresh server process through plugins.LoadPlugins and the real HandleMsg4/6. Oracle: handler list = listed plugins supporting the protocol, in order (or start-up error); invocation log = configured order cut after the first stop, once each, same request object, response = predecessor's return value; datagram sent = response returned last; nothing sent after nil. In every chain-child engine each loaded built-in handler is wrapped to assert 'nil response only with stop'. Distinct by (chain, protocol, config path)",
 		assumptions: assume("the enumeration is exhaustive over behaviours^len up to the stated length; longer chains and other behaviours are sampled"),
-		runs:        []runSpec{{engine: "order", netns: true, qBatches: 16, qCases: 200, tBatches: 64, tCases: 400}},
+		runs: []runSpec{{engine: "order", netns: true, qBatches: 16, qCases: 200, tBatches: 64, tCases: 400},
+			// "built-in handlers only ever return a nil response together with stop": every built-in plugin in random
+			// chains under hostile histories (pool exhaustion, foreign server ids, missing client ids ...)
+			{engine: "hostile", netns: true, qBatches: 16, qCases: 2, tBatches: 64, tCases: 6, stall: 6 * time.Minute}},
 		guards:      []guard{{"order.chains_checked", 1500, "chains"}, {"order.must_fail", 50, "bad configurations"}, {"order.nil_final", 200, "nil final responses"}, {"order.sent_checked", 1500, "sent datagrams"}, {"order.sent_link_level", 200, "responses sent as link-level frames"}},
 	},
 	"C14": {
@@ -160,7 +169,7 @@ var specs = map[string]*propSpec{
 		level: "exploration",
 		rule: "full decision table giaddr {0, routable, link-local, broadcast} x ciaddr {same} x broadcast flag x reply {OFFER, ACK, NAK produced by a plugin} x yiaddr {0, assigned} x listener {bound to ve0, unbound} x arrival interface {ve0, vf0} = 768 cells, each with fresh random addresses/MAC/xid, 3 (quick) / 12 (thorough) repetitions, inside a private network namespace with two veth pairs; UDP replies observed at the server's WriteTo (destination, port, IP_PKTINFO ifindex), link-level unicasts observed as real frames sniffed on the veth peers (which link, destination MAC, destination IP, UDP ports, payload). Oracle: the RFC 2131 section 4.1 cascade written as an independent table. Distinct by (chain, cell)",
 		assumptions: assume("hardware-address length 6 on the link-level path (an Ethernet frame cannot carry other lengths)", "needs CAP_NET_ADMIN to create the namespace; without it the check is inconclusive"),
-		runs:        []runSpec{{engine: "addr4", netns: true, parallel: 8, qBatches: 3, qCases: 8, tBatches: 12, tCases: 8}, wireRun(2, 6)},
+		runs:        []runSpec{{engine: "addr4", netns: true, parallel: 8, qBatches: 3, qCases: 8, tBatches: 12, tCases: 8}, wireRun(2, 6), raceSlice()},
 		guards:      []guard{{"addr4.rows.l2", 40, "link-level rows"}, {"addr4.rows.udp_pinned", 300, "pinned rows"}, {"addr4.rows.udp", 1000, "udp rows"}},
 	},
 	"C16": {
